@@ -215,7 +215,15 @@ class MethodWalker:
             return
         env = dict(env or {})
         self._defs: Dict[str, ast.AST] = {}
+        # text rendered into a local first (`tail = x.basic09_text()` ... f"{head}{tail}") is printed where the local
+        # is used, not where it is computed: its events wait here until the name is read
+        saved_pending = getattr(self, "_pending", None)
+        self._pending: Dict[str, List[Event]] = {}
         self._walk_body(fn.body, env, ci, fn, None, depth)
+        for nm in list(self._pending):
+            self.events.extend(self._pending.pop(nm))
+        if saved_pending is not None:
+            self._pending = saved_pending
 
     def _walk_body(self, body, env, ci, fn, cond, depth):
         for st in body:
@@ -228,7 +236,10 @@ class MethodWalker:
 
     def _walk_stmt(self, st, env, ci, fn, cond, depth):
         if isinstance(st, ast.Assign):
+            n0 = len(self.events)
             self._scan_expr(st.value, env, ci, fn, cond, depth)
+            if len(st.targets) == 1 and isinstance(st.targets[0], ast.Name):
+                self._defer(st.targets[0].id, n0, replace=cond is None)
             o = self.origin(st.value, env)
             for t in st.targets:
                 self._bind(t, o, env)
@@ -236,7 +247,10 @@ class MethodWalker:
                     self._defs[t.id] = st.value
         elif isinstance(st, ast.AnnAssign):
             if st.value is not None:
+                n0 = len(self.events)
                 self._scan_expr(st.value, env, ci, fn, cond, depth)
+                if isinstance(st.target, ast.Name):
+                    self._defer(st.target.id, n0, replace=cond is None)
                 self._bind(st.target, self.origin(st.value, env), env)
                 if isinstance(st.target, ast.Name):
                     self._defs[st.target.id] = st.value
@@ -272,7 +286,19 @@ class MethodWalker:
                 self._scan_expr(st.value, env, ci, fn, cond, depth)
             if depth == 0:
                 self.returns.append((st, ci.name, dict(self._defs)))
+        elif isinstance(st, ast.AugAssign) and isinstance(st.target, ast.Name):
+            n0 = len(self.events)
+            self._scan_expr(st.value, env, ci, fn, cond, depth)
+            self._defer(st.target.id, n0, replace=False)
         elif isinstance(st, ast.Expr):
+            v = st.value
+            # parts.append(<text>) / parts.extend(...) / parts.insert(i, <text>): the text waits in `parts`
+            if isinstance(v, ast.Call) and isinstance(v.func, ast.Attribute) and v.func.attr in ("append", "extend", "insert") and isinstance(v.func.value, ast.Name) and v.func.value.id != "self":
+                n0 = len(self.events)
+                for a in v.args:
+                    self._scan_expr(a, env, ci, fn, cond, depth)
+                self._defer(v.func.value.id, n0, replace=False)
+                return
             self._scan_expr(st.value, env, ci, fn, cond, depth)
         elif isinstance(st, (ast.With, ast.Try)):
             for b in (getattr(st, "body", []), getattr(st, "orelse", []), getattr(st, "finalbody", [])):
@@ -284,9 +310,28 @@ class MethodWalker:
                 if isinstance(ch, ast.expr):
                     self._scan_expr(ch, env, ci, fn, cond, depth)
 
+    def _defer(self, name: str, n0: int, replace: bool):
+        """Move the print events recorded since position n0 to the local `name` (only when printing is walked)."""
+        if self.meth != "basic09_text":
+            return
+        new = self.events[n0:]
+        if not any(ev.kind == "print" for ev in new):
+            if replace and name in self._pending:
+                # the local is overwritten with text that prints nothing: what it held is dropped
+                self._pending.pop(name)
+            return
+        del self.events[n0:]
+        if replace:
+            self._pending[name] = new
+        else:
+            self._pending.setdefault(name, []).extend(new)
+
     def _scan_expr(self, e, env, ci, fn, cond, depth):
         """Record events for calls inside expression e, in evaluation (source) order."""
         if e is None:
+            return
+        if isinstance(e, ast.Name) and isinstance(e.ctx, ast.Load) and e.id in getattr(self, "_pending", {}):
+            self.events.extend(self._pending.pop(e.id))
             return
         if isinstance(e, (ast.GeneratorExp, ast.ListComp, ast.SetComp, ast.DictComp)):
             env2 = dict(env)
